@@ -95,11 +95,15 @@ type interpreter struct {
 	env                EnvConfig
 	pcs                []pcInfo
 	frames             map[*value][]uintptr
+	base               *interpreter
 	path               *pathState
 	w                  *worker
 	maxSteps           int64
 	steps              int64
 	inHarness          bool
+	locIDs             map[*value]int
+	files              map[*value]int
+	fileData           map[int][][]value
 	funcsRun           map[string]int
 	stubHits           map[string]int
 }
@@ -107,6 +111,33 @@ type interpreter struct {
 type ssaFunc = ssa.Function
 
 var initTrace = os.Getenv("GOSYM_INITTRACE") != ""
+
+var stepProf map[string]int
+
+func init() {
+	if os.Getenv("GOSYM_STEPPROF") != "" {
+		stepProf = map[string]int{}
+	}
+}
+
+// DumpStepProf prints the init-time step profile.
+func DumpStepProf() {
+	type kv struct {
+		k string
+		v int
+	}
+	var xs []kv
+	for k, v := range stepProf {
+		xs = append(xs, kv{k, v})
+	}
+	slices.SortFunc(xs, func(a, b kv) int { return b.v - a.v })
+	for i, x := range xs {
+		if i > 25 {
+			break
+		}
+		fmt.Fprintf(os.Stderr, "PROF %8d %s\n", x.v, x.k)
+	}
+}
 
 // setCell is the single choke point for stores done by stubs.
 func (i *interpreter) setCell(p *value, v value) { *p = v }
@@ -154,9 +185,7 @@ func (fr *frame) get(key ssa.Value) value {
 	case *ssa.Const:
 		return constValue(key)
 	case *ssa.Global:
-		if r, ok := fr.i.globals[key]; ok {
-			return r
-		}
+		return fr.i.globalCell(key)
 	}
 	if r, ok := fr.env[key]; ok {
 		return r
@@ -706,6 +735,9 @@ func runFrame(fr *frame) {
 			fr.curInstr = instr
 			fr.i.cur = fr
 			fr.i.steps++
+			if stepProf != nil && !fr.i.inHarness && fr.i.path != nil {
+				stepProf[fr.fn.String()]++
+			}
 			if fr.i.maxSteps > 0 && fr.i.steps > fr.i.maxSteps {
 				if fr.i.path != nil {
 					fr.i.path.unwind = fmt.Sprintf("more than %d instructions on one path", fr.i.maxSteps)
@@ -791,6 +823,9 @@ func NewInterp(p *Program) *interpreter {
 		env:        defaultEnv,
 		frames:     make(map[*value][]uintptr),
 		funcsRun:   make(map[string]int),
+		locIDs:     make(map[*value]int),
+		files:      make(map[*value]int),
+		fileData:   make(map[int][][]value),
 		stubHits:   make(map[string]int),
 	}
 	runtimePkg := i.prog.ImportedPackage("runtime")
@@ -799,23 +834,13 @@ func NewInterp(p *Program) *interpreter {
 	}
 	i.runtimeErrorString = runtimePkg.Type("errorString").Object().Type()
 	theRuntimeErrorString = i.runtimeErrorString
-	initReflect(i)
+	p.reflectOnce.Do(func() {
+		initReflect(i)
+		p.reflectPackage, p.rtypeMethods, p.errorMethods = i.reflectPackage, i.rtypeMethods, i.errorMethods
+	})
+	i.reflectPackage, i.rtypeMethods, i.errorMethods = p.reflectPackage, p.rtypeMethods, p.errorMethods
 	i.osArgs = append(i.osArgs, "prog")
-	base := p.base
-	for _, pkg := range i.prog.AllPackages() {
-		shared := base != nil && sharedPkg(pkg.Pkg.Path())
-		for _, m := range pkg.Members {
-			switch v := m.(type) {
-			case *ssa.Global:
-				if shared {
-					i.globals[v] = base.globals[v]
-					continue
-				}
-				cell := zero(mustDeref(v.Type()))
-				i.globals[v] = &cell
-			}
-		}
-	}
+	i.base = p.base
 	i.setupEnv()
 	return i
 }
@@ -833,8 +858,34 @@ func (p *Program) BuildBase() {
 				}
 			}
 		}
+		// make the base's table of shared globals complete, hence read-only
+		for _, pkg := range p.Prog.AllPackages() {
+			if sharedPkg(pkg.Pkg.Path()) {
+				for _, m := range pkg.Members {
+					if g, ok := m.(*ssa.Global); ok {
+						b.globalCell(g)
+					}
+				}
+			}
+		}
 		p.base = b
 	})
+}
+
+// globalCell returns the storage of global g: shared immutable packages
+// alias the base interpreter's cell, everything else is created on first use.
+func (i *interpreter) globalCell(g *ssa.Global) *value {
+	if c, ok := i.globals[g]; ok {
+		return c
+	}
+	if i.base != nil && g.Pkg != nil && sharedPkg(g.Pkg.Pkg.Path()) {
+		if c, ok := i.base.globals[g]; ok {
+			return c
+		}
+	}
+	cell := zero(mustDeref(g.Type()))
+	i.globals[g] = &cell
+	return &cell
 }
 
 // RunConcrete runs init and then the named function of the main package.
